@@ -1,7 +1,7 @@
 (* EXTRACT-Z: c17 run_c17 *)
 (* Executable entry point of the C17 correspondence: wire case -> wire result.
    first integer = machine: 1 IO state (Maths/IOState.v), 2 Geometry, 3 Sensors, 4 Mesh (Geom/*State.v). *)
-From OM Require Import Base.Lists Base.Wire Maths.IOState Maths.LinOpState Maths.ComputeState Gen.GenC17 Geom.GeomState Geom.SensorsState Geom.MeshState.
+From OM Require Import Base.Lists Base.Wire Maths.IOState Maths.LinOpState Maths.ComputeState Gen.GenC17 Geom.ReaderRegistry Geom.GeomState Geom.SensorsState Geom.MeshState.
 Local Open Scope Z_scope.
 
 Definition getFmt : dec fmt :=
@@ -61,7 +61,7 @@ Definition getGdesc : dec gdesc :=
   do inv <- getVec; do ni <- getVec; do pa <- getN; do ti <- getN; do cb <- getN; do pr <- getN; do ne <- getBool; do hm <- getZ;
   ret {| d_status := st; d_verts := vs; d_nmeshes := nm; d_ndomains := nd; d_finalized := fin; d_marks := mk; d_inv_add := inv;
          d_noniso := ni; d_parts := pa; d_tri_idx := ti; d_cbt := cb; d_pairs := pr; d_nested := ne; d_headmat := hm |}.
-Definition getGop : dec gop := do o <- getN; do i <- getN; match o with O => ret (GLoad i) | 1%nat => ret GHeadMat | 2%nat => ret GOther | _ => ret GFinalize end.
+Definition getGop : dec gop := do o <- getN; do i <- getN; match o with O => ret (GLoad i) | 1%nat => ret GHeadMat | 2%nat => ret GOther | 3%nat => ret GFinalize | 4%nat => ret GPollute | _ => ret (GSetCond i) end.
 Definition run_geom (w : wire) : wire :=
   run_dec (do fx <- getBool; do W <- getList getGdesc; do ops <- getList getGop; ret (fx, W, ops)) w
     (fun '(fx, W, ops) => lenpref (g_trace fx W ops gst0)).
@@ -100,6 +100,14 @@ Definition run_compute (w : wire) : wire :=
        let W := map (fun p => {| c_reads := fst (fst p); c_writes := snd (fst p); c_fresh := snd p |}) (combine code_compute_catalogue fr) in
        flat_map (fun r => [fst r; snd r]) (c_trace init W ops init)).
 
+(* ---- machine 7: reader registry; kinds 0 ok, 1 fails without leaving the stream open, 2 fails with the stream open ---- *)
+Definition getFkind : dec (nat * fkind) :=
+  do fm <- getN; do k <- getN; do st <- getZ;
+  ret (fm, match k with O => FOk | 1%nat => FFailBeforeOpen st | _ => FFailAfterOpen st end).
+Definition run_registry (w : wire) : wire :=
+  run_dec (do cl <- getBool; do nf <- getN; do h <- getList getFkind; ret (cl, nf, h)) w
+    (fun '(cl, nf, h) => fst (r_trace cl h (repeat false nf))).
+
 Definition run_c17 (w : wire) : wire :=
   match w with
   | 1 :: w' => run_io w'
@@ -108,5 +116,6 @@ Definition run_c17 (w : wire) : wire :=
   | 4 :: w' => run_mesh w'
   | 5 :: w' => run_linop w'
   | 6 :: w' => run_compute w'
+  | 7 :: w' => run_registry w'
   | _ => [-1]
   end.
